@@ -231,6 +231,7 @@ func TestC01(t *testing.T) {
 		for i := 0; i < n; i++ {
 			f := rapid.SampledFrom(smodel.Formats).Draw(rt, "format")
 			cfg := smodel.DefaultGenConfig(f)
+			cfg.TypeLists = true
 			cases = append(cases, drawSchemaCase(rt, cfg, 3))
 		}
 		res, err := c01CheckBatch(run, cases)
